@@ -5,7 +5,9 @@ from . import gen, langs, run, udiff
 
 # languages whose comments survive arbitrary *statement-level* line edits (no Markdown: its link
 # comments need blank lines around them, which line edits would destroy; Kotlin: known finding)
-SAFE_SUFFIXES = ["py", "rs", "js", "ts", "c", "cpp", "go", "java", "sql", "sh", "rb", "toml", "css", "swift", "cs", "php", "h", "tsx", "jsx"]
+# (no Swift either: tree-sitter-swift occasionally swallows later comments depending on byte lengths earlier in the file -
+# recorded C03 finding `swift-comments-swallowed`; such a file would be blamed on the wrong property here)
+SAFE_SUFFIXES = ["py", "rs", "js", "ts", "c", "cpp", "go", "java", "sql", "sh", "rb", "toml", "css", "cs", "php", "h", "tsx", "jsx"]
 
 
 class FileState:
